@@ -14,7 +14,7 @@ from __future__ import annotations
 import ast
 import sympy as sp
 
-from .model import Program, FunctionInfo, ClassInfo, ModuleInfo, AnalysisError, norm
+from .model import Program, FunctionInfo, ClassInfo, ModuleInfo, AnalysisError, norm, is_cached_property
 from .values import *  # noqa: F401,F403
 from .extapi import is_bool_expr
 from .values import (Val, Num, StrV, NoneV, NONE, BoolV, CondV, TupleV, ListV, DictV, SetV, SliceV, ObjV,
@@ -883,6 +883,8 @@ class Evaluator:
             k = self.concrete_int(idx)
             if k is None:
                 self.unsupported("list store with symbolic index", node, fr)
+            if not -len(obj.items) <= k < len(obj.items):
+                raise Raised("IndexError", node, "list assignment index out of range")
             obj.items[k] = v
             return
         if isinstance(obj, Num):
@@ -1421,7 +1423,10 @@ class Evaluator:
         if pr is not None and pr["get"] is not None:
             if inst is None:
                 return OpaqueV("property", pr)
-            return self.call(pr["get"], [], {}, self_val=inst, depth=fr.depth + 1)
+            v = self.call(pr["get"], [], {}, self_val=inst, depth=fr.depth + 1)
+            if is_cached_property(pr["get"]) and isinstance(inst, ObjV):
+                inst.attrs[name] = v          # kept in the instance dict: later reads do not recompute
+            return v
         m = ci.find_method(name)
         if m is not None:
             if m.kind == "classmethod":
